@@ -202,6 +202,13 @@ def run (ctx):
     for t in g.try_of[n][::-1]:
       if not any(any(x is d.ast for x in ast.walk(t)) for d in pops if d.ast is not None and True and any(y is d.ast for y in t.body)):
         own = any(h.type is None or norm(h.type) in ('Exception', 'BaseException') for h in t.handlers); break
+    if inner and own:
+      # a handed-over function may fail with something that is not an Exception (core.call_later(sys.exit), KeyboardInterrupt): it must
+      # not end the one call-later task either - everything queued behind it, and every later hand-over, would never run
+      total = [h for h in hs if h.ast.type is None or norm(h.ast.type) == 'BaseException']
+      ctx.ob('R-CONTAIN', trun, "no failure of a handed-over function ends the call-later task - not only Exception subclasses", bool(total), "bare except / BaseException" if total else
+             "the widest handler around the call is `except %s`: a function that raises SystemExit / KeyboardInterrupt escapes run(), the scheduler drops the only call-later task while Scheduler._callLaterTask still points to it - "
+             "the functions queued behind it and every later call_later are silently never executed" % norm(inner[0].ast.type), (mod, inner[0].ast), 'D2')
     ctx.ob('R-CONTAIN', trun, "a failing function does not stop the remaining ones", bool(inner) and own, "each call in its own catch-all try" if inner and own else
            "the call is not wrapped in its own catch-all: one failing function aborts the drain and the rest wait for the next wake-up", (mod, n.ast), 'D2')
     iv = g.interval(lambda x: x in calls, start=pops[0], stop=[h for (s_, h, a) in g.loop_nodes if pops[0] in g.loop_body_nodes(h)][-1]) if pops else None
